@@ -103,7 +103,7 @@ impl Prop for C10 {
          handshake and data step, Quake 1/2/3, Unreal 2 info / rules / players, Minecraft Java, Bedrock and the three legacy variants, Mindustry) x retries r in 0..=3 x ALL \
          per-attempt outcome vectors in {valid, silent, send fails, malformed, partial (only the first datagram of a multi-datagram reply arrives)}^(r+2), over several server states: a fault-injecting wrapper around the valid reference \
          server applies the vector to the attempts of that unit. Oracle from the transport log and the wrapper's record: attempts == min(index of the first non-timeout \
-         outcome + 1, r+1); every re-sent first request is byte-identical; first valid attempt => result equals the fault-free result; malformed (a fixed hand-written reply or, for the single-reply protocols without a challenge step, the valid reply cut to half / minus one byte / five bytes / one byte; for every protocol also an empty datagram or stream) => an error that is not \
+         outcome + 1, r+1); every re-sent first request is byte-identical; first valid attempt => result equals the fault-free result; malformed (a fixed hand-written reply or, for the single-reply protocols without a challenge step, the valid reply cut to half / minus one byte / five bytes / one byte, or with its first / fifth / middle / last byte inverted; for every protocol also an empty datagram or stream) => an error that is not \
          receive/send class (or, for a cut reply, success) and no further attempt; all r+1 timeouts => PacketReceive / PacketSend. non-trivial = the vector contains a fault that took effect; distinct = \
          digest of the case"
             .into()
@@ -121,7 +121,7 @@ impl Prop for C10 {
 
     fn strategy(&self, _tier: Tier) -> BoxedStrategy<Case> {
         let t = targets();
-        (0 .. t.len(), any::<prop::sample::Index>(), any::<prop::sample::Index>(), 0u8 .. 4, prop::collection::vec(prop::sample::select(FAULTS.to_vec()), 0 .. 6), any::<u64>(), 0u8 .. 6)
+        (0 .. t.len(), any::<prop::sample::Index>(), any::<prop::sample::Index>(), 0u8 .. 4, prop::collection::vec(prop::sample::select(FAULTS.to_vec()), 0 .. 6), any::<u64>(), 0u8 .. 10)
             .prop_map(move |(ti, ui, si, retries, plan, idx, mangle)| {
                 let (entry, units, steps) = &t[ti];
                 Case {
@@ -138,7 +138,7 @@ impl Prop for C10 {
     }
 
     fn enumerated<'a>(&'a self, tier: Tier, shard: usize, nshards: usize) -> Box<dyn Iterator<Item = Case> + 'a> {
-        let nstates = tier.pick(6u64, 30);
+        let nstates = tier.pick(10u64, 30);
         let mut combos = Vec::new();
         for (entry, units, steps) in targets() {
             for u in &units {
@@ -154,7 +154,7 @@ impl Prop for C10 {
         let it = combos.into_iter().enumerate().filter(move |(i, _)| i % nshards == shard).flat_map(|(_, (entry, unit, step, retries, k))| {
             let st = state_for_entry(&entry, k);
             // the realisation of "malformed" rotates with the state index where cut replies apply (0 = the fixed reply)
-            let mangle = if crate::models::fault::mangle_applies(entry.family()) { (k % 6) as u8 } else if k % 2 == 1 { 5 } else { 0 };
+            let mangle = if crate::models::fault::mangle_applies(entry.family()) { (k % 10) as u8 } else if k % 2 == 1 { 5 } else { 0 };
             plans(retries as usize + 2).into_iter().map(move |plan| {
                 Case {
                     entry: entry.clone(),
@@ -171,7 +171,7 @@ impl Prop for C10 {
     }
 
     fn exhaustive_subspaces(&self, tier: Tier) -> Vec<String> {
-        vec![format!("all outcome vectors {{valid, silent, send-fails, malformed, partial}}^(r+2) for r in 0..=3, for each of 18 entry points x their units x fault steps x {} server states (the realisation of 'malformed' rotates over the fixed reply and four cuts of the valid reply)", tier.pick(6, 30))]
+        vec![format!("all outcome vectors {{valid, silent, send-fails, malformed, partial}}^(r+2) for r in 0..=3, for each of 18 entry points x their units x fault steps x {} server states (the realisation of 'malformed' rotates over the fixed reply and four cuts of the valid reply)", tier.pick(10, 30))]
     }
 
     fn run(&self, case: &Case) -> Outcome {
@@ -192,7 +192,7 @@ impl Prop for C10 {
         };
         let (mut faulty, flog) = Faulty::new(case.st.responder(), fam, case.unit, case.step, case.plan.clone());
         faulty.mangle = case.mangle;
-        if case.mangle == 5 { o.label("malformed=empty reply"); } else if case.mangle != 0 { o.label(format!("malformed=valid reply cut short ({})", case.mangle)); }
+        if case.mangle == 5 { o.label("malformed=empty reply"); } else if case.mangle >= 6 { o.label(format!("malformed=valid reply with a byte inverted ({})", case.mangle)); } else if case.mangle != 0 { o.label(format!("malformed=valid reply cut short ({})", case.mangle)); }
         let run = run_scripted(Box::new(faulty), || case.entry.call_json(&ip, 27015, r));
         let flog = flog.borrow().clone();
         if std::env::var("GDV_TRACE").is_ok() {
